@@ -12,14 +12,16 @@ Variable env : key -> N.
 Variable F : key -> N -> list value -> list N -> N -> N.
 Variable order : N -> key -> list dep -> list dep.
 Variable rank : key -> nat.
+Variable R : key -> N -> rule.
+Hypothesis HTab : table_ok rules R.
 Hypothesis Hrank : wf_rank rules rank.
 Hypothesis Hdisc : wf_disc rules.
 Hypothesis Horder : wf_order order.
 
-Local Notation R := (AtRest rules F).
-Local Notation G := (Good rules env F rank).
+Local Notation AR := (AtRest F R).
+Local Notation G := (Good rules env F rank R).
 
-Lemma AtRest_init : R init_state.
+Lemma AtRest_init : AR init_state.
 Proof.
   unfold AtRest, init_state; cbn. repeat apply conj; auto.
   - intros k. cbn. lia.
@@ -28,16 +30,16 @@ Proof.
 Qed.
 
 Lemma AtRest_ext : forall s s', st_mem s' = st_mem s -> st_epoch s' = st_epoch s -> st_db s' = st_db s ->
-  st_db_epoch s' = st_db_epoch s -> R s -> R s'.
+  st_db_epoch s' = st_db_epoch s -> AR s -> AR s'.
 Proof.
   intros s s' Hm He Hd Hde H. unfold AtRest, bnd, sync, rows in *. rewrite Hm, He, Hd, Hde. exact H.
 Qed.
 
-Lemma AtRest_emit : forall s e, R s -> R (emit s e).
+Lemma AtRest_emit : forall s e, AR s -> AR (emit s e).
 Proof. intros s e. apply AtRest_ext; reflexivity. Qed.
 
 (* the epoch is bumped: nothing is complete, so nothing depends on the environment *)
-Lemma AtRest_bump : forall s, R s -> G noE (bump_epoch s).
+Lemma AtRest_bump : forall s, AR s -> G noE (bump_epoch s).
 Proof.
   intros s (Hbnd & Hsync & Hrows & Hde).
   assert (Hnd : forall x, ~ done (bump_epoch s) x).
@@ -51,18 +53,18 @@ Proof.
   - intros x [].
 Qed.
 
-Lemma Good_commit : forall s, G noE s -> R (commit_epoch s).
+Lemma Good_commit : forall s, G noE s -> AR (commit_epoch s).
 Proof.
   intros s (Hbnd & Hsync & Hrows & _). unfold AtRest. repeat apply conj; auto.
 Qed.
 
-Lemma AtRest_restart_nodb : forall s, R (restart_nodb s).
+Lemma AtRest_restart_nodb : forall s, AR (restart_nodb s).
 Proof.
   intros s. apply AtRest_ext with (s := init_state); try reflexivity. apply AtRest_init.
 Qed.
 
 (* a new engine over the same database: the database rows satisfy the row invariant relative to the database *)
-Lemma AtRest_restart : forall s, R s -> R (restart s).
+Lemma AtRest_restart : forall s, AR s -> AR (restart s).
 Proof.
   intros s (Hbnd & Hsync & Hrows & Hde). unfold AtRest, restart; cbn. repeat apply conj; auto.
   - intros x. cbn. specialize (Hbnd x). specialize (Hsync x). cbn zeta in Hsync. lia.
@@ -70,7 +72,7 @@ Proof.
   - intros x _. cbn. specialize (Hrows x (fun f => f)). specialize (Hbnd x).
     pose proof (Hsync x) as (Sv & Ss & Sc & Sb & Sn & Sd). cbn zeta in *.
     set (a := get (st_mem s) x) in *. set (b := get (st_db s) x) in *.
-    intros Hb Hs. destruct Hrows as (v & Hv & Ho & Hm & Hcl); [lia | congruence |].
+    intros Hb. destruct Hrows as (v & Hv & Ho & Hm & Hcl); [lia |]. rewrite <- Ss.
     assert (Hcd : cdeps b = cdeps a) by (apply cdeps_eq; now symmetry).
     exists v. split; [congruence|]. split; [exact Ho|]. split; [now rewrite <- Sd|].
     intros Hf. apply row_concl_row_ext with (r := a); [exact Hcd|].
@@ -82,14 +84,14 @@ Qed.
 
 (* ---------- one build ---------- *)
 
-Lemma build_good : forall fuel s k, (rank k < fuel)%nat -> R s ->
+Lemma build_good : forall fuel s k, (rank k < fuel)%nat -> AR s ->
   exists s1, ensure rules env F order fuel [] (bump_epoch s) k = Ok s1 /\
              build rules env F order fuel s k = Ok (commit_epoch s1) /\
-             R (commit_epoch s1) /\ result_of (commit_epoch s1) k = cvk rules env F rank k /\
+             AR (commit_epoch s1) /\ result_of (commit_epoch s1) k = cvk rules env F rank k /\
              provs_ok rules env F rank s (commit_epoch s1).
 Proof.
   intros fuel s k Hk HR.
-  destruct (ensure_good rules env F order rank Hrank Hdisc Horder fuel noE [] (bump_epoch s) k Hk)
+  destruct (ensure_good rules env F order rank R HTab Hrank Hdisc Horder fuel noE [] (bump_epoch s) k Hk)
     as (s1 & E1 & G1 & P1).
   - intros y [].
   - now apply AtRest_bump.
@@ -99,21 +101,21 @@ Proof.
     destruct Hf as [_ Hd]. destruct G1 as (_ & _ & _ & _ & Hcur & _). apply (Hcur k Hd).
 Qed.
 
-Theorem c01_no_cycle_when_ranked_thm : forall fuel s k, (rank k < fuel)%nat -> R s ->
+Theorem c01_no_cycle_when_ranked_thm : forall fuel s k, (rank k < fuel)%nat -> AR s ->
   exists s', build rules env F order fuel s k = Ok s'.
 Proof.
   intros fuel s k Hk HR. destruct (build_good fuel s k Hk HR) as (s1 & _ & Hb & _). eauto.
 Qed.
 
-Theorem c01_incremental_eq_clean_thm : forall fuel s k s', (rank k < fuel)%nat -> R s ->
+Theorem c01_incremental_eq_clean_thm : forall fuel s k s', (rank k < fuel)%nat -> AR s ->
   build rules env F order fuel s k = Ok s' -> result_of s' k = cv rules env F fuel k.
 Proof.
   intros fuel s k s' Hk HR Hb. destruct (build_good fuel s k Hk HR) as (s1 & _ & Hb1 & _ & Hres & _).
   rewrite Hb1 in Hb. inversion Hb; subst s'. rewrite Hres. symmetry. now apply cv_cvk.
 Qed.
 
-Theorem c01_build_preserves_thm : forall fuel s k s', (rank k < fuel)%nat -> R s ->
-  build rules env F order fuel s k = Ok s' -> R s'.
+Theorem c01_build_preserves_thm : forall fuel s k s', (rank k < fuel)%nat -> AR s ->
+  build rules env F order fuel s k = Ok s' -> AR s'.
 Proof.
   intros fuel s k s' Hk HR Hb. destruct (build_good fuel s k Hk HR) as (s1 & _ & Hb1 & HR1 & _).
   rewrite Hb1 in Hb. now inversion Hb; subst s'.
@@ -124,7 +126,7 @@ Theorem c01_fresh_thm : forall fuel k s', (rank k < fuel)%nat ->
 Proof. intros fuel k s' Hk. apply c01_incremental_eq_clean_thm; [exact Hk | apply AtRest_init]. Qed.
 
 (* every value handed to a task during the build is the clean value of that input *)
-Theorem c01_inputs_current_thm : forall fuel s k s', (rank k < fuel)%nat -> R s ->
+Theorem c01_inputs_current_thm : forall fuel s k s', (rank k < fuel)%nat -> AR s ->
   build rules env F order fuel s k = Ok s' ->
   exists l, st_log s' = l ++ st_log s /\
     forall k0 slot d v f, In (EProvide k0 slot d v) l -> (rank d < f)%nat -> v = cv rules env F f d.
